@@ -118,7 +118,10 @@ impl FromStr for AttoTokens {
             }
         };
 
-        Ok(Self(converted_units + remainder))
+        converted_units
+            .checked_add(remainder)
+            .map(Self)
+            .ok_or(EvmError::ExcessiveValue)
     }
 }
 
